@@ -221,6 +221,20 @@ func runC14(c *Ctx) {
 			}
 			if d, ok := plainDelta(in, dispF); ok && d == 1 && fn.Parent() == nil {
 				ok2, why := belowLimit(in.Block())
+				if !ok2 && fn.Object() != nil && isHelperOf(fn, fn) == false {
+					// the three bracket statements moved into a helper of their own: the limit is tested where it is called
+					if sites := p.callers(fn); len(sites) > 0 && (!fn.Object().Exported() || !knownOnPinnedTree(fn)) {
+						all := true
+						for _, cs := range sites {
+							if okS, _ := belowLimit(cs.(ssa.Instruction).Block()); !okS {
+								all = false
+							}
+						}
+						if all {
+							ok2 = true
+						}
+					}
+				}
 				c.check(ok2, fn, "inline bracket guard", in.Pos(), "the inline completion is taken only below the limit", "the inline completion is not guarded by Dispatched < MaxCallbackDispatch: "+why)
 			}
 		})
